@@ -33,6 +33,13 @@ func NewVerifSCTPConn(be VerifSCTPBackend) MultistreamConn {
 	return c
 }
 
+// ReleaseVerifSCTPConn forgets the backend registered for c, so that long
+// runs creating many connections do not accumulate them. c must not be used
+// afterwards.
+func ReleaseVerifSCTPConn(c MultistreamConn) {
+	verifBackends.Delete(c)
+}
+
 func (msc *SCTPConn) verifBackend() VerifSCTPBackend {
 	if be, ok := verifBackends.Load(msc); ok {
 		return be.(VerifSCTPBackend)
